@@ -1,6 +1,6 @@
 """C20 RISC-V 64 JIT output is equivalent to the interpreter."""
 import astq
-from rules import genreset, jit, jitcross, rv64, rvhsem, rtpreserve, rvdsread, aeshw, rvfp
+from rules import genreset, jit, jitcross, rv64, rvhsem, rtpreserve, rvdsread, aeshw, rvfp, cfrcross
 
 LEVEL = 'other'
 TECHNIQUE = ('cross-target parse (clang --target=riscv64) of the back-end that this host never compiles + sibling agreement with the interpreter on resolved-AST feature vectors, known-bits evaluation of emitted constants and of branch-offset bit scatter against the ISA encoding tables, finite enumeration of the literal-pool index, max-path code-size bound against the assembled template'
@@ -32,6 +32,9 @@ EXPLANATION += ' RV-DSITEM-HSEM.'
 EXPLANATION += ' RV-FP-HSEM.'
 CLAIM = CLAIM.replace('The floating-point and branch handlers remain covered by the structural and bit-level rules only;', 'The branch handlers remain covered by the bit-level rules;')
 CLAIM += (' The nine floating-point handlers are validated at word level on f registers that hold terms (two scalar registers per VM register): operation, operand registers and lanes of specification 5.3, memory operands from the two 32-bit integers at the masked scratchpad address, FDIV_M through the and-mask and the or-mask of its lane as in the loop head, FSCAL_R with the register the prologue loads 0x80F0000000000000 into; the lane functions regLo / regHi agree with the hand-written loop head and prologue (RV-FP-HSEM).')
+
+EXPLANATION += ' RV-CFR-BITS.'
+CLAIM += (' CFROUND is decided bit by bit for all 64 rotation counts, v1 and v2: the table index is 4 * (source bits imm mod 64 and the next), the word loaded from the literal pool goes to frm, the four table words are the RISC-V encodings of nearest / down / up / zero, the v2 branch tests bits 2-5 and skips exactly the rest of the handler (RV-CFR-BITS).')
 
 
 def run(ctx, R):
@@ -68,3 +71,4 @@ def run(ctx, R):
     rtpreserve.rule_store_order(ctx, R, 'rv64')
     rvdsread.rule_dsitem(ctx, R)
     rvfp.rule_fp_hsem(ctx, R)
+    cfrcross.rule_rv(ctx, R)
